@@ -117,10 +117,11 @@ func check(c Case) ev.Verdict {
 	tree, info, perr := ref.ParseInfo([]byte(c.Text))
 	var p jp.Patch
 	var err error
-	if pn := ev.Safe(func() { p, err = jp.DecodePatch([]byte(c.Text)) }); pn != nil {
-		return ev.Verdict{Err: pn}
-	}
+	pn := ev.Safe(func() { p, err = jp.DecodePatch([]byte(c.Text)) })
 	if perr != nil {
+		if pn != nil {
+			return ev.Verdict{Err: pn}
+		}
 		v := ev.Verdict{Classes: []string{"malformed"}, NonTrivial: len(c.Text) >= 2}
 		if err == nil || p != nil {
 			v.Err = fmt.Errorf("malformed JSON accepted (or non-nil Patch returned): err=%v", err)
@@ -139,6 +140,9 @@ func check(c Case) ev.Verdict {
 	}
 	if wantF != wantL {
 		return ev.Excluded("duplicate member whose first and last occurrence disagree on validity", "ambiguous-dup")
+	}
+	if pn != nil {
+		return ev.Verdict{Err: pn}
 	}
 	v := ev.Verdict{Classes: []string{fmt.Sprintf("valid=%v", wantF), fmt.Sprintf("mutations=%d", min(c.Mutations, 3))}}
 	v.NonTrivial = c.Mutations == 1 || (wantF && tree.K == ref.KArr && len(tree.Arr) >= 2)
